@@ -4,7 +4,7 @@
    Conventions: a Go pointer to a sub-message is [option]; repeated message fields are
    [list (option _)] because encoding/json can put nil elements there (proto.Unmarshal
    cannot); enums are int32 ([Z], possibly negative), uint32 fields are [Z] in [0,2^32),
-   strings / bytes are [list Z].  [t_unk] / [g_unk] say "this HWCText / HWCGfx carries
+   strings / bytes are [list Z].  [t_unk] / [hg_unk] say "this HWCText / HWCGfx carries
    unknown protobuf fields": invisible to the converters except through
    proto.Equal(x, &T{}) (an otherwise empty sub-message with unknown fields is not empty).
    [s_proc] and [c_setnet] are opaque payloads: their meaning goes through encoding/json
@@ -29,8 +29,8 @@ Record HWCText := mkText {
   t_l1 : bytes; t_l2 : bytes; t_int2 : Z; t_pair : Z;
   t_scale : option ScaleM; t_style : option TextStyle; t_inv : bool;
   t_pix : option Color; t_bg : option Color; t_unk : bool }.
-Record HWCGfx := mkGfx {
-  g_type : Z; g_w : Z; g_h : Z; g_xy : bool; g_x : Z; g_y : Z; g_data : bytes; g_unk : bool }.
+Record HWCGfx := mkHGfx {
+  hg_type : Z; hg_w : Z; hg_h : Z; hg_xy : bool; hg_x : Z; hg_y : Z; hg_data : bytes; hg_unk : bool }.
 Record HWCState := mkState {
   s_ids : list Z; s_mode : option HWCMode; s_color : option Color; s_ext : option HWCExtended;
   s_text : option HWCText; s_gfx : option HWCGfx; s_adc : option bool; s_proc : option bytes }.
@@ -58,20 +58,24 @@ Definition empty_msg : InboundMessage := mkMsg 0 None [] [].
 Definition empty_state : HWCState := mkState [] None None None None None None None.
 Definition empty_text : HWCText :=
   mkText 0 0 0 0 [] false [] [] 0 0 None None false None None false.
-Definition empty_gfx : HWCGfx := mkGfx 0 0 0 false 0 0 [] false.
+Definition empty_gfx : HWCGfx := mkHGfx 0 0 0 false 0 0 [] false.
+(* view as the image record of Model/Gfx.v (which owns chunking and reassembly) *)
 
 (* proto.Equal(x, &rwp.HWCText{}): no populated field (a non-nil sub-message pointer is
    populated even when the sub-message is itself empty) and no unknown fields. *)
 Definition is_none {A} (o : option A) : bool := match o with None => true | Some _ => false end.
-Definition is_nil {A} (l : list A) : bool := match l with [] => true | _ => false end.
+Fixpoint filter_some {A} (l : list (option A)) : list A :=
+  match l with [] => [] | Some a :: r => a :: filter_some r | None :: r => filter_some r end.
+
+Definition nilb {A} (l : list A) : bool := match l with [] => true | _ => false end.
 Definition text_is_empty (t : HWCText) : bool :=
-  (t_int t =? 0) && (t_fmt t =? 0) && (t_sicon t =? 0) && (t_micon t =? 0) && is_nil (t_title t)
-  && negb (t_solid t) && is_nil (t_l1 t) && is_nil (t_l2 t) && (t_int2 t =? 0) && (t_pair t =? 0)
+  (t_int t =? 0) && (t_fmt t =? 0) && (t_sicon t =? 0) && (t_micon t =? 0) && nilb (t_title t)
+  && negb (t_solid t) && nilb (t_l1 t) && nilb (t_l2 t) && (t_int2 t =? 0) && (t_pair t =? 0)
   && is_none (t_scale t) && is_none (t_style t) && negb (t_inv t) && is_none (t_pix t)
   && is_none (t_bg t) && negb (t_unk t).
 Definition gfx_is_empty (g : HWCGfx) : bool :=
-  (g_type g =? 0) && (g_w g =? 0) && (g_h g =? 0) && negb (g_xy g) && (g_x g =? 0) && (g_y g =? 0)
-  && is_nil (g_data g) && negb (g_unk g).
+  (hg_type g =? 0) && (hg_w g =? 0) && (hg_h g =? 0) && negb (hg_xy g) && (hg_x g =? 0) && (hg_y g =? 0)
+  && nilb (hg_data g) && negb (hg_unk g).
 
 (* ------------------------------------------------------------------------------------
    S-expression image.  Absent sub-message = symbol [nil]; present = its value.
@@ -88,6 +92,7 @@ Definition gfx_is_empty (g : HWCGfx) : bool :=
      reg   ::= nil | (r kind #id value)
    ------------------------------------------------------------------------------------ *)
 Open Scope string_scope.
+Open Scope Z_scope.
 Definition s_nil : sexp := sym "nil".
 Definition is_snil (s : sexp) : bool := sym_eqb s "nil".
 
@@ -109,8 +114,8 @@ Definition sx_text (t : HWCText) : sexp :=
      sx_opt sx_style (t_style t); of_bool (t_inv t); sx_opt sx_color (t_pix t);
      sx_opt sx_color (t_bg t); of_bool (t_unk t)].
 Definition sx_gfx (g : HWCGfx) : sexp :=
-  L [I (g_type g); I (g_w g); I (g_h g); of_bool (g_xy g); I (g_x g); I (g_y g); B (g_data g);
-     of_bool (g_unk g)].
+  L [I (hg_type g); I (hg_w g); I (hg_h g); of_bool (hg_xy g); I (hg_x g); I (hg_y g); B (hg_data g);
+     of_bool (hg_unk g)].
 Definition sx_state (s : HWCState) : sexp :=
   L [sym "s"; L (map I (s_ids s)); sx_opt sx_mode (s_mode s); sx_opt sx_color (s_color s);
      sx_opt sx_ext (s_ext s); sx_opt sx_text (s_text s); sx_opt sx_gfx (s_gfx s);
@@ -157,17 +162,17 @@ Definition rd_scale (s : sexp) : option ScaleM :=
   match s with L [I a; I b; I c; I d; I e] => Some (mkScale a b c d e) | _ => None end.
 Definition rd_text (s : sexp) : option HWCText :=
   match s with
-  | L [I v; I fmt; I si; I mi; B title; I solid; B l1; B l2; I v2; I pair; sc; st; I inv; pix; bg; I unk] =>
+  | L [I v; I fmt; I si; I mi; B title; I solid; B l1; B l2; I v2; I pr; sc; st; I inv; pix; bg; I unk] =>
     let? sc' := rd_opt rd_scale sc in let? st' := rd_opt rd_style st in
     let? pix' := rd_opt rd_color pix in let? bg' := rd_opt rd_color bg in
-    Some (mkText v fmt si mi title (negb (solid =? 0)) l1 l2 v2 pair sc' st' (negb (inv =? 0)) pix' bg'
+    Some (mkText v fmt si mi title (negb (solid =? 0)) l1 l2 v2 pr sc' st' (negb (inv =? 0)) pix' bg'
                  (negb (unk =? 0)))
   | _ => None
   end.
 Definition rd_gfx (s : sexp) : option HWCGfx :=
   match s with
   | L [I t; I w; I h; I xy; I x; I y; B d; I unk] =>
-    Some (mkGfx t w h (negb (xy =? 0)) x y d (negb (unk =? 0)))
+    Some (mkHGfx t w h (negb (xy =? 0)) x y d (negb (unk =? 0)))
   | _ => None
   end.
 Definition rd_state (s : sexp) : option HWCState :=
